@@ -227,6 +227,11 @@ func checkUnd(c undCase) *vk.Failure {
 		return f
 	}
 
+	// PathExistsIn, IsPathIn, Equal on undirected graphs.
+	if f := checkUndPaths(m, g, comp, c.Ord); f != nil {
+		return f
+	}
+
 	// UndirectedCyclesIn: a cycle basis.
 	if f := checkCycleBasis(m, topo.UndirectedCyclesIn(g), cyclomatic); f != nil {
 		return f
@@ -295,6 +300,72 @@ func checkUnd(c undCase) *vk.Failure {
 			if f := checkKCore(m, g, c.K, core, d); f != nil {
 				return f
 			}
+		}
+	}
+	return nil
+}
+
+func checkUndPaths(m *M, g graph.Undirected, comp []int, seed uint64) *vk.Failure {
+	n := m.n
+	if n == 0 {
+		return nil
+	}
+	q := vk.NewSplitMix(seed ^ 0x7a7a)
+	for k := 0; k < min(n*n, 30); k++ {
+		u, v := k/n%n, k%n
+		if n*n > 30 {
+			u, v = q.Intn(n), q.Intn(n)
+		}
+		if got := topo.PathExistsIn(g, onode(m.id[u]), onode(m.id[v])); got != (comp[u] == comp[v]) {
+			return vk.Failf("und-pathexists", "PathExistsIn(%d,%d)=%v, same component=%v", m.id[u], m.id[v], got, comp[u] == comp[v])
+		}
+	}
+	for k := 0; k < 4; k++ {
+		var p []graph.Node
+		want := true
+		l := q.Intn(5)
+		cur := q.Intn(n)
+		for s := 0; s <= l; s++ {
+			p = append(p, onode(m.id[cur]))
+			nxt := q.Intn(n)
+			var outs []int
+			for v := 0; v < n; v++ {
+				if m.adj[cur][v] {
+					outs = append(outs, v)
+				}
+			}
+			if len(outs) > 0 && q.Intn(3) > 0 {
+				nxt = outs[q.Intn(len(outs))]
+			}
+			if s < l && !m.adj[cur][nxt] {
+				want = false
+			}
+			cur = nxt
+		}
+		if got := topo.IsPathIn(g, p); got != want {
+			return vk.Failf("und-ispathin", "IsPathIn(%s)=%v want %v", fmtNodes(p), got, want)
+		}
+	}
+	g2 := m.undirected(0x99)
+	if !topo.Equal(g, g2) || !topo.Equal(g2, g) {
+		return vk.Failf("und-equal-same", "Equal(g, copy of g) = false")
+	}
+	if n >= 2 {
+		u := q.Intn(n)
+		v := (u + 1 + q.Intn(n-1)) % n
+		c2 := m.c
+		c2.E = nil
+		for _, e := range m.edges {
+			if !(e[0] == min(u, v) && e[1] == max(u, v)) {
+				c2.E = append(c2.E, e)
+			}
+		}
+		if !m.adj[u][v] {
+			c2.E = append(c2.E, [2]int{u, v})
+		}
+		m2 := model(c2)
+		if topo.Equal(g, m2.undirected(0x98)) {
+			return vk.Failf("und-equal-differs-one-edge", "Equal = true for graphs differing in edge %d-%d", m.id[u], m.id[v])
 		}
 	}
 	return nil
